@@ -416,4 +416,12 @@ def ValidFrom (b : Both) : List Op → Prop
 instance (s : Spec) (op : Op) : Decidable (OpOk s op) := by
   cases op <;> simp [OpOk] <;> infer_instance
 
+instance decValidFrom : (b : Both) → (ops : List Op) → Decidable (ValidFrom b ops)
+  | _, [] => isTrue trivial
+  | b, op :: ops =>
+    match (inferInstance : Decidable (OpOk b.s op)), decValidFrom (stepBoth b op) ops with
+    | isTrue h1, isTrue h2 => isTrue ⟨h1, h2⟩
+    | isFalse h1, _ => isFalse fun h => h1 h.1
+    | _, isFalse h2 => isFalse fun h => h2 h.2
+
 end PonyVerif.Model.SessStore
